@@ -1,5 +1,5 @@
 #![allow(dead_code)]
 use parity_scale_codec::{Compact, Decode, Encode};
-#[derive(Encode, Decode)]
-pub struct T(#[codec(skip, compact)] pub u32);
+#[derive(parity_scale_codec::CompactAs)]
+pub struct T { #[codec(skip)] a: u32 }
 fn main() {}
